@@ -30,11 +30,99 @@ package acrablock
 //@   ensures n == keyLenOf(b) && 0 <= n && n <= 65535
 //@   modifies nothing
 
+// Reveal side of the symmetric envelope: the wrapped data key is read from the layout position that Build wrote it to,
+// it is unwrapped with one of the caller's keys under the caller's context, the payload is what follows the key, and the
+// plaintext handed back is exactly what the data back end returned for (unwrapped key, payload, caller's context).
 //@ func (b AcraBlock) Decrypt(keys [][]byte, context []byte) (out []byte, err error)
 //@   props C01 C02 C03 C14
 //@   safety
 //@   requires validBlock(b)
 //@   ensures err != nil ==> out == nil
+//@   ensures plaintext-is-the-aead-output: err == nil ==> called(SymmetricBackend.Decrypt#1) && ret(SymmetricBackend.Decrypt#1)[1] == nil && sameslice(out, ret(SymmetricBackend.Decrypt#1)[0])
+//@   ensures no-key-no-plaintext: !called(SymmetricBackend.Decrypt#1) ==> err != nil
+//@   at call SymmetricBackend.Decrypt#0 : assert sameslice(arg[1], b[18:18+keyLenOf(b)]) && sameslice(arg[2], context) && exists(j, 0, len(keys), sameslice(arg[0], keys[j]))
+//@   at call SymmetricBackend.Decrypt#1 : assert ret(SymmetricBackend.Decrypt#0)[1] == nil && sameslice(arg[0], ret(SymmetricBackend.Decrypt#0)[0]) && sameslice(arg[1], b[18+keyLenOf(b):]) && sameslice(arg[2], context)
+//@   at call bytes.Equal : assert sameslice(arg[1], b[13:15]) && sameslice(arg[0], ret(Sha256KeyIDGenerator.GenerateKeyID)[0])
+//@   at call Sha256KeyIDGenerator.GenerateKeyID : assert sameslice(arg[1], context) && exists(j, 0, len(keys), sameslice(arg[0], keys[j]))
+
+// Write side. Build fills the length fields and copies key and payload to the positions Decrypt and
+// ExtractAcraBlockFromData read them from; for a block allocated with exactly the needed size the result is a block
+// that the extractor accepts as a whole.
+//@ func NewEmptyAcraBlock(length int) (b AcraBlock)
+//@   props C01 C14
+//@   safety
+//@   requires 4 <= length && length < 1 << 42
+//@   ensures len(b) == length && fresh(b) && forall(i, 0, 4, b[i] == tagBegin[i])
+//@   modifies nothing
+
+//@ func (b AcraBlock) setEncryptedDataEncryptionKey(key []byte) (err error)
+//@   props C01 C14
+//@   safety
+//@   requires !sameregion(b, key)
+//@   ensures too-small: (err != nil) <==> (len(b) < 18 + len(key))
+//@   ensures key-length-field: err == nil && len(key) <= 65535 ==> keyLenOf(b) == len(key)
+//@   ensures key-copied: err == nil ==> forall(i, 0, len(key), b[18+i] == old(key[i]))
+//@   ensures head-kept: forall(i, 0, 16, b[i] == old(b[i]))
+
+//@ func (b AcraBlock) setEncryptedData(data []byte) (err error)
+//@   props C01 C14
+//@   safety
+//@   requires !sameregion(b, data)
+//@   ensures fits: err == nil ==> 18 <= len(b) && 18 + keyLenOf(b) + len(data) <= len(b)
+//@   ensures key-length-kept: keyLenOf(b) == old(keyLenOf(b))
+//@   ensures data-copied: err == nil ==> forall(i, 0, len(data), b[18+old(keyLenOf(b))+i] == old(data[i]))
+//@   ensures head-and-key-kept: forall(i, 0, 18, b[i] == old(b[i])) && (err == nil ==> forall(i, 18, 18+keyLenOf(b), b[i] == old(b[i])))
+
+// (The key length field has 16 bits: a wrapped key of 64 KiB or more cannot be represented; the clauses that locate
+// the payload are stated for keys that fit, which is every key a Secure Cell back end produces for a 32-byte data key.)
+//@ func (b AcraBlock) Build(encryptedKey []byte, encryptedData []byte) (out []byte, err error)
+//@   props C01 C03 C14
+//@   safety
+//@   requires !sameregion(b, encryptedKey) && !sameregion(b, encryptedData)
+//@   ensures on-error: err != nil ==> out == nil
+//@   ensures whole-block: err == nil ==> sameslice(out, b) && 18 + len(encryptedKey) <= len(b)
+//@   ensures payload-fits: err == nil && len(encryptedKey) <= 65535 ==> 18 + len(encryptedKey) + len(encryptedData) <= len(b)
+//@   ensures rest-length-field: err == nil ==> le64(b[4:12]) + 4 == uint64(len(b))
+//@   ensures key-length-field: err == nil && len(encryptedKey) <= 65535 ==> keyLenOf(b) == len(encryptedKey)
+//@   ensures key-at-18: err == nil ==> forall(i, 0, len(encryptedKey), b[18+i] == old(encryptedKey[i]))
+//@   ensures payload-after-key: err == nil && len(encryptedKey) <= 65535 ==> forall(i, 0, len(encryptedData), b[18+len(encryptedKey)+i] == old(encryptedData[i]))
+//@   ensures tag-and-types-kept: forall(i, 0, 4, b[i] == old(b[i])) && forall(i, 12, 16, b[i] == old(b[i]))
+
+//@ assume func (g KeyIDGenerator) GenerateKeyID(key []byte, context []byte) (id []byte, err error)
+//@   ensures err == nil ==> len(id) >= 2
+//@   modifies nothing
+
+//@ func (s Sha256KeyIDGenerator) GenerateKeyID(key []byte, context []byte) (id []byte, err error)
+//@   props C01 C02 C03 C14
+//@   safety
+//@   ensures err == nil && len(id) == 2
+//@   at call hash.Hash.Write#0 : assert sameslice(arg[0], key)
+//@   at call hash.Hash.Write#1 : assert sameslice(arg[0], context)
+//@   modifies nothing
+
+//@ func (b AcraBlock) SetKeyEncryptionKeyID(key []byte, context []byte, idGenerator KeyIDGenerator) (err error)
+//@   props C01 C02 C14
+//@   safety
+//@   requires 15 <= len(b)
+//@   ensures id-at-13: err == nil && !sameregion(b, ret(KeyIDGenerator.GenerateKeyID)[0]) ==> b[13] == ret(KeyIDGenerator.GenerateKeyID)[0][0] && b[14] == ret(KeyIDGenerator.GenerateKeyID)[0][1]
+//@   ensures rest-kept: forall(i, 0, 13, b[i] == old(b[i])) && forall(i, 15, len(b), b[i] == old(b[i]))
+//@   at call KeyIDGenerator.GenerateKeyID : assert recv == idGenerator && sameslice(arg[0], key) && sameslice(arg[1], context)
+
+//@ func CreateAcraBlockWithBackends(data []byte, key []byte, context []byte, keyEncryptionBackend KeyEncryptionBackendType, dataEncryptionBackend DataEncryptionBackendType) (out []byte, err error)
+//@   props C01 C02 C03 C14
+//@   safety
+//@   requires haskey(keyEncryptionBackendTypeMap, keyEncryptionBackend) && haskey(dataEncryptionBackendTypeMap, dataEncryptionBackend)
+//@   ensures on-error: err != nil ==> out == nil
+//@   at call SymmetricBackend.Encrypt#0 : assert sameslice(arg[1], data) && sameslice(arg[2], context) && len(arg[0]) == 32 && fresh(arg[0])
+//@   at call SymmetricBackend.Encrypt#1 : assert sameslice(arg[0], key) && sameslice(arg[1], argof(SymmetricBackend.Encrypt#0)[0]) && sameslice(arg[2], context)
+//@   at call AcraBlock.SetKeyEncryptionKeyID : assert sameslice(arg[0], key) && sameslice(arg[1], context)
+//@   at call AcraBlock.Build : assert len(recv) == 18 + len(arg[0]) + len(arg[1]) && sameslice(arg[0], ret(SymmetricBackend.Encrypt#1)[0]) && sameslice(arg[1], ret(SymmetricBackend.Encrypt#0)[0]) && ret(SymmetricBackend.Encrypt#0)[1] == nil && ret(SymmetricBackend.Encrypt#1)[1] == nil
+//@   ensures result-is-the-built-block: err == nil ==> called(AcraBlock.Build) && sameslice(out, ret(AcraBlock.Build)[0])
+
+//@ func CreateAcraBlock(data []byte, key []byte, context []byte) (out []byte, err error)
+//@   props C01 C02 C14
+//@   at call CreateAcraBlockWithBackends : assert sameslice(arg[0], data) && sameslice(arg[1], key) && sameslice(arg[2], context)
+//@   ensures sameslice(out, ret(CreateAcraBlockWithBackends)[0]) && err == ret(CreateAcraBlockWithBackends)[1]
 
 //@ func init()
 //@   props C01 C03 C14
